@@ -883,6 +883,10 @@ func rulePeekDiscardPre(c *core.Ctx) {
 			info := fn.Info()
 			for _, call := range core.CallsTo(info, fn.Decl, true, "pdf.(*scanner).SkipString") {
 				if _, ok := core.StringConst(info, call.Args[0]); !ok {
+					// a parameter of an unexported helper that every caller gives a constant
+					if paramAlwaysConstString(c, fn, core.ObjOf(info, call.Args[0])) {
+						continue
+					}
 					o.FailAt(fn.Site(call, ""), "SkipString with a non-constant pattern (its length feeds PeekN)")
 				}
 			}
